@@ -11,3 +11,13 @@ add("C02", "exploration", "reference-model comparison at the server boundary (ow
     "file sizes x chunk sizes x Range headers x If-Range values x GET/HEAD; status, Content-Range, every multipart part, body bytes and the declared Content-Length "
     "(against counted bytes) are compared with an independent model. Held = on all responses produced.",
     "Trusts the reference resolver, the byteranges reader and the emulators' recording; Range headers limited to the RFC grammar plus universally malformed ones.")
+add("C17", "exploration", "list-model comparison after every operation + view-agreement invariant (direct and as icontract.invariant on the real class), bounded-exhaustive operation sequences",
+    "Every operation sequence up to length 3 (thorough 4) over 39 operations on a 2x2 key/value alphabet from 5 initial lists is executed on the real MutableMultiMapping; after "
+    "each step the pair list is compared with an independent list model and every view (getlist, [], keys, len, in, items, values, get) with the pair list; random long sequences run "
+    "with the invariant armed through icontract; QueryParams/FormData/MultiMapping views and the query-string round trip are compared on generated pair lists.",
+    "Trusts the per-operation list model; position of a re-assigned key and popitem's key choice not pinned.")
+add("C11", "exploration", "protocol automaton + two-state reference model over exhaustively enumerated call sequences x server scripts (coroutines stepped directly)",
+    "Every call sequence up to length 4 (thorough 5, sampled 6) over 15 wrapper operations x 38 server scripts is executed on the real WebSocket wrapper with a recording receive/send pair; "
+    "forwarded events are fed to the ASGI application-side automaton, each call is compared with the reference model (must raise / forwards m / consumes one event), frames are "
+    "accounted exactly-once in order and the reported states are checked for monotonicity. WebsocketDenialResponse is checked with and without the extension.",
+    "Typed receive on the other frame type is unspecified; a call that would wait forever ends the scenario.")
